@@ -1719,12 +1719,16 @@ func (s *Store) ExecuteTransaction(transaction *Transaction) error {
 		updateCountsPerDataset[k] = newItems
 	}
 
-	err := s.commitIDTxn()
-	if err != nil {
-		return err
+	// new ids are asserted in the rolling id transaction of the store owning the datasets. That is not s
+	// when s is a contextual copy of the store (NewContextualStore), which has its own idtxn field.
+	// commit the owning store's id transaction, so that ids are committed before the data referring to them.
+	for _, ds := range datasets {
+		if err := ds.store.commitIDTxn(); err != nil {
+			return err
+		}
 	}
 
-	err = txn.Commit()
+	err := txn.Commit()
 	if err != nil {
 		return err
 	}
